@@ -78,7 +78,9 @@ SPECS = {
     "Cache::get_without_checking_expiration": {"props": ["C05"], "extra_rewrites": [("R17", r"for tuples in records\.values\(\)", "for tuples in itv__: shim_hashmap_values(records)")],
         "contract": """    requires old(self).inner.wf(),
     ensures final(self).inner.wf(), same_records(old(self).inner, final(self).inner), // [C05:lookup_leaves_records_unchanged]
+        typed_map(old(self).inner.partitions@) ==> typed_map(final(self).inner.partitions@),
         exists|now: Instant| is_now(now) && #[trigger] lookup_result(r@, old(self).inner.partitions@, *name, qtype, now), // [C05:lookup_returns_stored_records_with_time_left]
+        typed_map(old(self).inner.partitions@) && qtype is Record ==> forall|x: int| 0 <= x < r@.len() ==> spec_rtype_of((#[trigger] r@[x]).rtype_with_data) == qtype->Record_0, // [C10:typed_lookup_returns_records_of_the_asked_type]
         forall|x: int| 0 <= x < r@.len() ==> (#[trigger] r@[x]).name == *name, // [C05,C10:lookup_returns_records_owned_by_the_asked_name]""",
         "loops": {"0": {"kw": "for", "spec": """                        invariant
                             values_of(recs_g, itv__.seq()),
@@ -93,6 +95,16 @@ SPECS = {
         QueryType::Record(t) => { assert(lookup_result(rrs@, old(self).inner.partitions@, *name, qtype, now)); }
         QueryType::Wildcard => { assert(lookup_result(rrs@, old(self).inner.partitions@, *name, qtype, now)); }
         _ => { assert(lookup_result(rrs@, old(self).inner.partitions@, *name, qtype, now)); }
+    }
+    if typed_map(old(self).inner.partitions@) {
+        lemma_typed_same(old(self).inner, self.inner);
+        if let QueryType::Record(t) = qtype {
+            let parts = old(self).inner.partitions@;
+            assert forall|x: int| 0 <= x < rrs@.len() implies spec_rtype_of((#[trigger] rrs@[x]).rtype_with_data) == t by {
+                assert(parts.contains_key(*name) && has_tuple(parts[*name].records@, t, x));
+                assert(rrs@[x] == rr_of(*name, parts[*name].records@[t]@[x], now));
+            }
+        }
     }
 }"""},
             {"after": "if let Some(records) = self.inner.get_partition_without_checking_expiration(name) {", "proof": "let ghost recs_g = records@;"},
@@ -137,19 +149,38 @@ assert(idx + 1 == itv__.seq().len() ==> any_cached(rrs@, recs_g, *name, now)) by
         forall|j: int| 0 <= j < r@.len() ==> (#[trigger] r@[j]).ttl > 0, // [C05:never_serves_a_record_with_no_time_left]
         exists|now: Instant, all: Seq<ResourceRecord>| is_now(now) && #[trigger] lookup_result(all, old(self).inner.partitions@, *name, qtype, now)
             && r@ == all.filter(positive_ttl()), // [C05:serves_exactly_the_stored_records_with_time_left]
-        forall|j: int| 0 <= j < r@.len() ==> (#[trigger] r@[j]).name == *name, // [C05,C10:lookup_returns_records_owned_by_the_asked_name]""",
-        "anchors": [{"after": "let mut rrs = self.get_without_checking_expiration(name, qtype);", "proof": "let ghost all__ = rrs@;"}]},
-    "Cache::insert": {"props": ["C05", "C15"],
+        forall|j: int| 0 <= j < r@.len() ==> (#[trigger] r@[j]).name == *name, // [C05,C10:lookup_returns_records_owned_by_the_asked_name]
+        typed_map(old(self).inner.partitions@) ==> typed_map(final(self).inner.partitions@),
+        typed_map(old(self).inner.partitions@) && qtype is Record ==> forall|x: int| 0 <= x < r@.len() ==> spec_rtype_of((#[trigger] r@[x]).rtype_with_data) == qtype->Record_0, // [C10:typed_lookup_returns_records_of_the_asked_type]""",
+        "anchors": [{"after": "let mut rrs = self.get_without_checking_expiration(name, qtype);", "proof": "let ghost all__ = rrs@;"},
+                    {"after": "rrs.retain(|rr| rr.ttl > 0);", "proof": """proof {
+    if typed_map(old(self).inner.partitions@) && qtype is Record {
+        assert forall|x: int| 0 <= x < rrs@.len() implies spec_rtype_of((#[trigger] rrs@[x]).rtype_with_data) == qtype->Record_0 by {
+            assert(all__.contains(rrs@[x]));
+            let w = choose|w: int| 0 <= w < all__.len() && all__[w] == rrs@[x];
+        }
+    }
+}"""}]},
+    "Cache::insert": {"props": ["C05", "C15", "C10"],
         "contract": """    requires old(self).inner.wf(), old(self).inner.current_size < usize::MAX,
-    ensures final(self).inner.wf(), final(self).inner.desired_size == old(self).inner.desired_size,""",
-        "entry": "broadcast use axiom_rtd_eq, axiom_rtd_obeys;"},
+    ensures final(self).inner.wf(), final(self).inner.desired_size == old(self).inner.desired_size,
+        typed_map(old(self).inner.partitions@) ==> typed_map(final(self).inner.partitions@), // [C10:records_are_filed_under_their_own_type]""",
+        "entry": "broadcast use axiom_rtd_eq, axiom_rtd_obeys;",
+        "anchors": [{"after": "Duration::from_secs(record.ttl.into()),\n        );", "proof": """proof {
+    if typed_map(old(self).inner.partitions@) {
+        let (e, d) = choose|e: Instant, d: Option<int>| #[trigger] upsert_recs(recs_or_empty(old(self).inner.partitions@, record.name), self.inner.partitions@[record.name].records@, spec_rtype_of(record.rtype_with_data), (record.rtype_with_data, e), d);
+        lemma_typed_upsert(old(self).inner.partitions@, self.inner.partitions@, record.name, spec_rtype_of(record.rtype_with_data), (record.rtype_with_data, e), d);
+    }
+}"""}]},
     "Cache::prune": {"props": ["C15", "C05"],
         "contract": """    requires old(self).inner.wf(),
     ensures final(self).inner.wf(),
         live_kept(old(self).inner.partitions@, final(self).inner.partitions@), // [C05:unexpired_records_survive_unless_their_name_is_evicted]
+        typed_map(old(self).inner.partitions@) ==> typed_map(final(self).inner.partitions@), // [C10:records_are_filed_under_their_own_type]
         r.0 == (old(self).inner.current_size > old(self).inner.desired_size), r.1 == final(self).inner.current_size,
         r.2 + r.3 == old(self).inner.current_size - final(self).inner.current_size,
-        final(self).inner.current_size <= old(self).inner.desired_size, clean(final(self).inner),"""},
+        final(self).inner.current_size <= old(self).inner.desired_size, clean(final(self).inner),""",
+        "entry": "broadcast use lemma_typed_subset_b;"},
     "PartitionedCache::remove_least_recently_used": {"props": ["C15", "C05"],
         "contract": """    requires old(self).wf(),
     ensures final(self).wf(), // [C15:cache_invariants_kept_by_eviction]
@@ -322,6 +353,8 @@ impl LockedCache {
     #[verifier::external_body]
     pub fn get(&mut self, name: &DomainName, qtype: QueryType) -> (r: Vec<ResourceRecord>)
         ensures all_named(r@, *name), forall|j: int| 0 <= j < r@.len() ==> (#[trigger] r@[j]).ttl > 0,
+            // the Cache behind the lock satisfies wf and typed_map (established by Cache::new, kept by every Cache operation: lock invariant)
+            qtype is Record ==> forall|x: int| 0 <= x < r@.len() ==> spec_rtype_of((#[trigger] r@[x]).rtype_with_data) == qtype->Record_0,
     { unimplemented!() }
 }
 #[verifier::external_body]
@@ -330,12 +363,14 @@ fn shim_lock_cache(c: &SharedCache) -> (r: LockedCache) { unimplemented!() }""",
     specs["SharedCache::insert"] = {"props": ["C05"], "contract": "", "rewrites": r9}
     specs["SharedCache::insert_all"] = {"props": ["C05"], "contract": "", "rewrites": r9}
     specs["SharedCache::get"] = {"props": ["C05", "C10"], "rewrites": [("R9", r"self\.cache\s*\.lock\(\)\s*\.expect\(MUTEX_POISON_MESSAGE\)", "shim_lock_cache(self)")], "contract": """    ensures all_named(r@, *name), // [C05,C10:lookup_returns_records_owned_by_the_asked_name]
-        forall|j: int| 0 <= j < r@.len() ==> (#[trigger] r@[j]).ttl > 0, // [C05:never_serves_a_record_with_no_time_left]"""}
+        forall|j: int| 0 <= j < r@.len() ==> (#[trigger] r@[j]).ttl > 0, // [C05:never_serves_a_record_with_no_time_left]
+        qtype is Record ==> forall|x: int| 0 <= x < r@.len() ==> spec_rtype_of((#[trigger] r@[x]).rtype_with_data) == qtype->Record_0, // [C10:typed_lookup_returns_records_of_the_asked_type]"""}
     G.impl(C, "SharedCache", ["get", "insert", "insert_all"], "SharedCache::", specs)
     end(G)
 
 
 CANARIES = [
+    {"name": "record_filed_under_type_a", "file": CACHE, "old": "            record.rtype_with_data.rtype(),\n            record.rtype_with_data.clone(),", "new": "            RecordType::A,\n            record.rtype_with_data.clone(),"},
     {"name": "lru_keeps_expiry_entry", "file": CACHE, "old": "            self.expiry_priority.remove(&partition_key);\n", "new": ""},
     {"name": "prune_stops_early", "file": CACHE, "old": "while self.current_size > self.desired_size {", "new": "while self.current_size > self.desired_size + 1 {"},
     {"name": "prune_wrong_overflow_flag", "file": CACHE, "old": "let has_overflowed = self.current_size > self.desired_size;", "new": "let has_overflowed = self.current_size >= self.desired_size;"},
